@@ -76,6 +76,8 @@ def run(ctx):
         if not SC.finite([utr_b, vtr_b]):
             ctx.count("nonfinite_tropical_value_skipped"); continue
         ut, vt = Fraction(b2f(utr_b)), Fraction(b2f(vtr_b))
+        if min(float(Utr), float(Vtr), float(Ftr), float(ut), float(vt)) < 1e-290 or max(float(Utr), float(Vtr), float(Ftr)) > 1e290:
+            ctx.count("tropical_value_under_or_overflows_f64_skipped"); continue
         # ties between monomials make the greedy choice ambiguous only on a null set; compare values
         if abs(ut - Utr) > 32 * SC.EPS * Utr:
             ctx.violation(f"logged u_trop {float(ut)!r} is not the largest monomial of U ({float(Utr)!r}) at the sampled parameters", S.small_req(s),
